@@ -40,6 +40,7 @@ anchors) except for the read_only forwarding of R4, which is enumerated program-
 from __future__ import annotations
 
 import ast
+import re
 
 from ..cfg import ALL, NORMAL
 from ..dataflow import fragments
@@ -574,6 +575,8 @@ PY_COPIES = {
 }
 TARSTREAM = "streamflow.deployment.aiotarstream"
 TARSTREAM_OPEN = (f"{TARSTREAM}.open", f"{TARSTREAM}.AioTarStream.open")
+_R5_NAMES = {q.rsplit(".", 1)[-1] for q in PY_COPIES} | {"open"}
+_TAR_WORD = re.compile(r"""['"](?:/[\w/]*/)?tar[ '"]""")
 
 
 def _r5_scope(prog):
@@ -649,16 +652,16 @@ def r5(ctx):
     # the anchors must still be there (a moved helper is an analysis error, not a silent pass)
     lc = prog.func(f"{LOCAL}._local_copy")
     ctx.require(any(q in PY_COPIES for c in lc.calls() for q in prog.resolve_call(lc, c)), "C22.R5: _local_copy no longer uses a shutil copy primitive")
-    scope = {id(m): m for m in _r5_scope(prog) if "shutil" in m.source or "copytree" in m.source or "tar" in m.source}
+    flags = {id(m): (any(w in m.source for w in ("shutil", "copytree", "aiotarstream")), _TAR_WORD.search(m.source) is not None) for m in _r5_scope(prog)}
     for f in prog.all_funcs():
-        m = scope.get(id(f.module))
-        if m is None:
+        has_py, has_tar = flags.get(id(f.module), (False, False))
+        if not (has_py or has_tar):
             continue
-        has_py = "shutil" in m.source or "copytree" in m.source
-        has_tar = "tar" in m.source
         if True:
             short = f.qualname.split(".", 3)[-1]
-            for c in f.calls() if has_py or "aiotarstream" in m.source else []:
+            for c in f.calls() if has_py else []:
+                if _callee_name(c) not in _R5_NAMES:
+                    continue
                 qs = prog.resolve_call(f, c, fanout=False)
                 q = next((q for q in qs if q in PY_COPIES), None)
                 if q is not None:
@@ -771,16 +774,50 @@ VARIANTS = [
       "read_only=read_only", "read_only=True", "R4"),
     V("copy_same_connector: link for writable transfers", BASEFILE, f"{BASE}.copy_same_connector", "['ln', '-snf'] if read_only else ['/bin/cp', '-rf']", "['/bin/cp', '-rf'] if read_only else ['ln', '-snf']", "R4"),
     V("copy_same_connector: non-recursive copy", BASEFILE, f"{BASE}.copy_same_connector", "['/bin/cp', '-rf']", "['/bin/cp', '-f']", "R4"),
-    V("copy_same_connector: operands swapped", BASEFILE, f"{BASE}.copy_same_connector", "+ [src, dst]", "+ [dst, src]", "R4"),
+    V("copy_same_connector: operands swapped", BASEFILE, f"{BASE}.copy_same_connector", "+ [shlex.quote(src), shlex.quote(dst)]", "+ [shlex.quote(dst), shlex.quote(src)]", "R4"),
+    V("copy_same_connector: operands swapped through quoted temporaries", BASEFILE, f"{BASE}.copy_same_connector",
+      "await connector.run(location=location, command=(['ln', '-snf'] if read_only else ['/bin/cp', '-rf']) + [shlex.quote(src), shlex.quote(dst)])",
+      "qa = shlex.quote(dst)\n                qb = shlex.quote(src)\n                await connector.run(location=location, command=(['ln', '-snf'] if read_only else ['/bin/cp', '-rf']) + [qa, qb])", "R4"),
+    V("copy_same_connector: shlex.quote dropped from the operands", BASEFILE, f"{BASE}.copy_same_connector", "+ [shlex.quote(src), shlex.quote(dst)]", "+ [src, dst]", "R1"),
     V("_local_copy: symlink operands swapped", LOCALFILE, f"{LOCAL}._local_copy", "os.symlink(src, dst,", "os.symlink(dst, src,", "R4"),
     V("_local_copy: copyfile loses the mode", LOCALFILE, f"{LOCAL}._local_copy", "shutil.copy(src, dst)", "shutil.copyfile(src, dst)", "R4"),
     V("_local_copy: inverted read_only test", LOCALFILE, f"{LOCAL}._local_copy", "if read_only:", "if not read_only:", "R4"),
     V("LocalConnector: positional read_only replaced", LOCALFILE, f"{LOCAL}.LocalConnector.copy_remote_to_local", "_local_copy(src, dst, read_only)", "_local_copy(src, dst, True)", "R4"),
+    V("get_remote_to_remote_write_command: extraction directory of the same-basename branch unquoted", UTILSFILE, f"{UTILS}.get_remote_to_remote_write_command",
+      "return ['tar', 'xpf', '-', '-C', shlex.quote(posixpath.dirname(dst))]", "return ['tar', 'xpf', '-', '-C', posixpath.dirname(dst)]", "R1"),
+    # ---- R5
+    V("_local_copy: writable tree copy keeps symlinks (symlinks=True)", LOCALFILE, f"{LOCAL}._local_copy", "shutil.copytree(src, dst, dirs_exist_ok=True)",
+      "shutil.copytree(src, dst, symlinks=True, dirs_exist_ok=True)", "R5"),
+    V("_local_copy: symlinks passed positionally", LOCALFILE, f"{LOCAL}._local_copy", "shutil.copytree(src, dst, dirs_exist_ok=True)",
+      "shutil.copytree(src, dst, True, dirs_exist_ok=True)", "R5"),
+    V("_local_copy: symlinks=True through a temporary", LOCALFILE, f"{LOCAL}._local_copy", "shutil.copytree(src, dst, dirs_exist_ok=True)",
+      "keep = True\n        shutil.copytree(src, dst, dirs_exist_ok=True, symlinks=keep)", "R5"),
+    V("_local_copy: symlinks=not read_only on the writable branch", LOCALFILE, f"{LOCAL}._local_copy", "shutil.copytree(src, dst, dirs_exist_ok=True)",
+      "shutil.copytree(src, dst, symlinks=not read_only, dirs_exist_ok=True)", "R5"),
+    V("_local_copy: file copy does not follow links", LOCALFILE, f"{LOCAL}._local_copy", "shutil.copy(src, dst)", "shutil.copy(src, dst, follow_symlinks=False)", "R5"),
+    V("BaseConnector.copy_remote_to_local: tar reader without h", BASEFILE, f"{BC}.copy_remote_to_local", "reader_command=['tar', 'chf', '-',", "reader_command=['tar', 'cf', '-',", "R5"),
+    V("copy_remote_to_remote helper: default tar reader without h", BASEFILE, f"{BASE}.copy_remote_to_remote", "reader_command = ['tar', 'chf', '-',", "reader_command = ['tar', '-cf', '-',", "R5"),
+    V("copy_local_to_remote helper: tar writer relies on the dereference default", BASEFILE, f"{BASE}.copy_local_to_remote", "mode='w', dereference=True,", "mode='w',", "R5"),
+    V("copy_local_to_remote helper: dereference=False", BASEFILE, f"{BASE}.copy_local_to_remote", "dereference=True", "dereference=False", "R5"),
     # ---- benign
+    V("benign: copytree with the default spelled out", LOCALFILE, f"{LOCAL}._local_copy", "shutil.copytree(src, dst, dirs_exist_ok=True)",
+      "shutil.copytree(src, dst, symlinks=False, dirs_exist_ok=True)", None),
+    V("benign: copytree symlinks=read_only on the writable branch (false there)", LOCALFILE, f"{LOCAL}._local_copy", "shutil.copytree(src, dst, dirs_exist_ok=True)",
+      "shutil.copytree(src, dst, symlinks=read_only, dirs_exist_ok=True)", None),
+    V("benign: shutil.copy follow_symlinks=True through a temporary", LOCALFILE, f"{LOCAL}._local_copy", "shutil.copy(src, dst)", "follow = True\n        shutil.copy(src, dst, follow_symlinks=follow)", None),
+    V("benign: tar reader flags reordered with a dash", BASEFILE, f"{BC}.copy_remote_to_local", "reader_command=['tar', 'chf', '-',", "reader_command=['tar', '-hcf', '-',", None),
+    V("benign: tar reader with long options", BASEFILE, f"{BASE}.copy_remote_to_remote", "reader_command = ['tar', 'chf', '-',", "reader_command = ['tar', '--create', '--dereference', '--file', '-',", None),
+    V("benign: dereference=True through a temporary, keywords reordered", BASEFILE, f"{BASE}.copy_local_to_remote",
+      "async with aiotarstream.open(stream=writer, format=tarfile.GNU_FORMAT, mode='w', dereference=True, copybufsize=connector.transferBufferSize) as tar:",
+      "follow_links = True\n            async with aiotarstream.open(stream=writer, dereference=follow_links, mode='w', format=tarfile.GNU_FORMAT, copybufsize=connector.transferBufferSize) as tar:", None),
     V("benign: dst quoted into a local first", UTILSFILE, f"{UTILS}.get_local_to_remote_destination",
-      "is_dst_dir, status = await dst_connector.run(location=dst_location, command=[f'test -d \"{dst}\"'], capture_output=True)",
+      "is_dst_dir, status = await dst_connector.run(location=dst_location, command=['test', '-d', shlex.quote(dst)], capture_output=True)",
       "qdst = shlex.quote(dst)\n    is_dst_dir, status = await dst_connector.run(location=dst_location, command=['test', '-d', qdst], capture_output=True)", None),
-    V("benign: copy_same_connector repaired with shlex.quote", BASEFILE, f"{BASE}.copy_same_connector", "+ [src, dst]", "+ [shlex.quote(src), shlex.quote(dst)]", None),
+    V("benign: copy_same_connector quotes its operands into locals first", BASEFILE, f"{BASE}.copy_same_connector",
+      "await connector.run(location=location, command=(['ln', '-snf'] if read_only else ['/bin/cp', '-rf']) + [shlex.quote(src), shlex.quote(dst)])",
+      "qa = shlex.quote(src)\n                qb = shlex.quote(str(dst))\n                await connector.run(location=location, command=(['ln', '-snf'] if read_only else ['/bin/cp', '-rf']) + [qa, qb])", None),
+    V("benign: writer command of the same-basename branch quoted through a local", UTILSFILE, f"{UTILS}.get_remote_to_remote_write_command",
+      "return ['tar', 'xpf', '-', '-C', shlex.quote(posixpath.dirname(dst))]", "parent = shlex.quote(posixpath.dirname(dst))\n        return ['tar', 'xpf', '-', '-C', parent]", None),
     V("benign: reader command quoted through a generator", BASEFILE, f"{BC}.copy_remote_to_local", "*posixpath.split(src)]", "*(shlex.quote(p) for p in posixpath.split(src))]", None),
     V("benign: _copy computes read_only once", MGRFILE, f"{MGRMOD}._copy",
       "if src_location.local:\n        await dst_connector.copy_local_to_remote(src=src, dst=dst, locations=dst_locations, read_only=not writable)",
